@@ -12,7 +12,7 @@
    naming particle p, [named es] = the particles named (C12/Spec.v). *)
 From Coq Require Import List NArith ZArith Bool String Ascii Reals.
 From T4V Require Import Base.Str Base.Scalar C12.Text C12.Model C12.Spec
-     C12.ProofsExpand C12.ProofsText C12.ProofsCells C12.ProofsDeck.
+     C12.Cards C12.ProofsExpand C12.ProofsText C12.ProofsCells C12.ProofsDeck C12.ProofsCards.
 Import ListNotations.
 Open Scope string_scope.
 Open Scope list_scope.
@@ -341,6 +341,34 @@ Theorem C12_written_volumes :
 Proof. exact @written_ids_conv_keys. Qed.
 Print Assumptions C12_written_volumes.
 
+(* ---- from the text of the cards (Card.content(): comments removed, one blank
+   between words) ---- *)
+
+(* an IMP data card  name ++ " " ++ body  (name starts with a letter and holds
+   no digit: imp:n, IMP:N,P ...; body starts with the first digit of the first
+   entry): the dictionary key is the lower-cased name with its blank, the entries
+   are the words of body *)
+Theorem C12_imp_card_text : forall name body : string,
+  (match name with String c _ => is_letter c = true | EmptyString => False end) ->
+  all_chars (fun c => negb (is_digit c)) name = true ->
+  (match body with String c _ => is_digit c = true | EmptyString => False end) ->
+  hd_fails (Ascii.eqb "*") (snd (span is_digit body)) ->
+  String.prefix "imp:" (lstrip (lower (name ++ " "))) = true ->
+  imp_cards_of [(name ++ " " ++ body)%string] = Ok [(lower (name ++ " "), split_ws body)].
+Proof. exact imp_card_text. Qed.
+Print Assumptions C12_imp_card_text.
+
+(* once the card texts are split (cellcard.split / datacard.split / LIKE_RE,
+   model C12/Cards.v, tied on the real card contents), parsing the deck text is
+   parse_cells on the split cards: every theorem above applies to deck text *)
+Theorem C12_parse_deck_text_split :
+  forall (T : Type) (Sc : Scalar T) (P : prims T) (ctexts dtexts : list string)
+         (lats : list (Z * list (Z * Z))) (ic : list (string * list string)) (cards : list card),
+    imp_cards_of dtexts = Ok ic -> cards_of_texts Sc P ctexts = Ok cards ->
+    parse_deck_text Sc P ctexts dtexts lats = parse_cells Sc P ic cards lats.
+Proof. exact @parse_deck_text_split. Qed.
+Print Assumptions C12_parse_deck_text_split.
+
 (* ---- non-vacuity ---- *)
 
 (* a data card with every kind of shorthand, read and expanded *)
@@ -476,4 +504,25 @@ Proof.
       replace (1 / 1)%R with 1%R by field. rewrite Rltb_10. reflexivity. }
     eexists. cbn [meaning]. rewrite Hok. cbn [option_map].
     split; reflexivity.
+Qed.
+
+(* the LIKE deck from the text of its cards: split, parsed, cell 2 skipped *)
+Example C12_example_deck_text :
+  let ctexts := ["1 0 -1 imp:n=1"; "2 like 1 but imp:n=0"; "3 0 1 imp:n=1"] in
+  let dtexts := ["imp:p 1 0 1"; "nps 1"] in
+  let cards := [ (1%Z, (Explicit " 0" " -1 ", "imp:n=1")); (2%Z, (Like 1, " imp:n=0"));
+                 (3%Z, (Explicit " 0" " 1 ", "imp:n=1")) ] in
+  imp_cards_of dtexts = Ok [("imp:p ", ["1"; "0"; "1"])] /\
+  cards_of_texts RS wP ctexts = Ok cards /\
+  exists cells, parse_deck_text RS wP ctexts dtexts [] = Ok (cells, [2%Z]) /\
+                conv_keys RS cells = [1%Z; 3%Z].
+Proof.
+  cbv zeta.
+  assert (imp_cards_of ["imp:p 1 0 1"; "nps 1"] = Ok [("imp:p ", ["1"; "0"; "1"])]) as Hi by reflexivity.
+  assert (cards_of_texts RS wP ["1 0 -1 imp:n=1"; "2 like 1 but imp:n=0"; "3 0 1 imp:n=1"]
+          = Ok [ (1%Z, (Explicit " 0" " -1 ", "imp:n=1")); (2%Z, (Like 1, " imp:n=0"));
+                 (3%Z, (Explicit " 0" " 1 ", "imp:n=1")) ]) as Hc by (rcompute; reflexivity).
+  split; [exact Hi|]. split; [exact Hc|].
+  rewrite (C12_parse_deck_text_split R RS wP _ _ [] _ _ Hi Hc).
+  eexists. split; [rcompute; reflexivity|rcompute; reflexivity].
 Qed.
